@@ -806,6 +806,17 @@ val implicit_level : nat -> bclass -> nat
 
 val dir_of_level : nat -> bclass
 
+val lev_at : nat option list -> nat -> nat -> nat
+
+val seq_sos : nat option list -> nat -> nat list -> nat list -> bclass
+
+val seq_eos :
+  bclass list -> nat option list -> nat -> nat list -> nat list -> bclass
+
+val resolve_classes :
+  bclass -> bclass -> bclass -> (n * bool) option list -> bclass list ->
+  bclass list
+
 val resolve_sequence :
   bclass list -> bclass list -> (n * bool) option list -> nat option list ->
   nat -> nat list -> nat list -> (nat * nat) list
